@@ -433,6 +433,102 @@ def rule_b1(ctx, F):
     ctx.floor("single-bit masks into multi-word bit sets", n, 12)
 
 
+class FoldAll(Monitor):
+    """Every item a particular `for` loop yields is folded into the accumulator before the loop asks for the next one.
+    m = (in_iteration, folded); only the loop whose `match next()` switch is `switch_bid` is tracked."""
+
+    def __init__(self, fn, switch_bid, fold_pts):
+        self.fn, self.sw, self.fold = fn, switch_bid, set(fold_pts)
+
+    def elem(self, m, pt, e, s):
+        if pt in self.fold:
+            return (m[0], True)
+        return m
+
+    def edge(self, m, bid, edge, cond, truth, s):
+        if bid == self.sw and isinstance(edge.lab, dict) and edge.lab.get("name") in ("Some", "None"):
+            if m[0] and not m[1]:
+                return Viol("the loop moves on to the next item without having added the current one", (bid, 0))
+            return (edge.lab["name"] == "Some", False)
+        return m
+
+    def exit(self, m, bid, s):
+        if m[0] and not m[1]:
+            return Viol("the function returns from inside the loop, leaving the remaining items out")
+        return None
+
+
+def origin_calls(fn, e, depth=0, seen=None):
+    """Names of the calls an expression's value comes from, following locals that have exactly one definition
+    (also loop iterators, whose address is taken by `next`)."""
+    seen = seen if seen is not None else set()
+    out = []
+    for n in own_walk(e) if isinstance(e, dict) else []:
+        if n.get("k") == "call":
+            out.append(n.get("fn") or "")
+        if n.get("k") == "ref" and n.get("dk") != "param" and n.get("id") not in seen and depth < 12:
+            seen.add(n["id"])
+            ds = [d for d in fn.defs(n["id"]) if isinstance(d, dict) and d.get("k") not in ("uninit", "param")]
+            if len(ds) == 1:
+                out += origin_calls(fn, ds[0], depth + 1, seen)
+    return out
+
+
+def loop_switch_of(fn, next_pt):
+    """The `match iter.next()` switch block fed by the `next` call at next_pt."""
+    from taint import root_var
+    dest = None
+    for n in own_walk(fn.blocks[next_pt[0]].elems[next_pt[1]]["e"]):
+        if n.get("k") == "assign" and isinstance(n.get("r"), dict) and n["r"].get("k") == "call":
+            dest = root_var(n["l"])
+    for bid in fn.blocks:
+        if not is_loop_next_switch(fn, bid):
+            continue
+        d = fn.single_def(strip(fn.cond(bid))["id"])
+        if d is not None and root_var(strip(d)["a"][0]) == dest:
+            return bid
+    return None
+
+
+def rule_f1(ctx, F):
+    """F1: the character sets the conflict analysis starts from are complete.  A token's starting characters are
+    *all* characters some transition out of its start state accepts — leading separators included, because the
+    lexer reads them as part of the token — and a state's following characters are the union over *every*
+    terminal that may follow.  Dropping a class of transitions makes two tokens look conflict-free, and the
+    merge licence (token_conflicts) then merges states that differ on such a look-ahead."""
+    table = [("build_tables::token_conflicts::get_starting_chars", "transition_chars", "CharacterSet::add", [], "every transition out of the start state (separators too) adds its characters"),
+             ("build_tables::token_conflicts::get_following_chars::{closure#0}", "TokenSet::iter", "CharacterSet::add", [(("is_terminal",), False)], "every terminal that may follow adds its starting characters")]
+    for name, source, fold, skips, what in table:
+        fn = find_fn(ctx, F, name, "F1")
+        if not fn:
+            continue
+        key = name.split("::")[2] + ":" + "all-items-folded"
+        nxt = [pt for pt, c, d in calls_named(fn, "Iterator::next") if any(source in x for x in origin_calls(fn, c["a"][0]))]
+        folds = [pt for pt, c, d in calls_named(fn, fold)]
+        if len(nxt) != 1 or not folds:
+            ctx.bad("F1", key, "%s: expected one loop over %s(..) folding with %s (found %d loop(s), %d fold(s))" % (name, source, fold, len(nxt), len(folds)))
+            continue
+        sw = loop_switch_of(fn, nxt[0])
+        if sw is None:
+            ctx.bad("F1", key, "%s: the loop over %s(..) has no recognisable `match next()` switch" % (name, source))
+            continue
+
+        class M2(FoldAll):
+            def edge(self, m, bid, edge, cond, truth, s, _skips=skips, _fn=fn):
+                if cond is not None and truth is not None and _skips and m[0]:
+                    txt, t = cond_text(_fn, cond, truth)
+                    for needles, want in _skips:
+                        if t == want and all(n in txt for n in needles):
+                            return (m[0], True)          # a licensed skip (non-terminals have no starting characters)
+                return FoldAll.edge(self, m, bid, edge, cond, truth, s)
+        sr = Search(fn, M2(fn, sw, folds), budget=500000)
+        v = sr.run((False, False))
+        if v is None:
+            ctx.ok("F1", key, "%s: %s (%d states)" % (name, what, sr.states), sample={"function": name, "loop": fn.loc(nxt[0]), "fold": fn.loc(folds[0])})
+        else:
+            ctx.bad("F1", key, "%s: %s — %s" % (name, what, v.msg), {"path": sr.render_path(v.path)[-6:]})
+
+
 def run(ctx):
     ctx.config = "rust"
     F = ctx.extract.rsfacts(CRATE)
@@ -442,6 +538,7 @@ def run(ctx):
     rule_g2(ctx, F)
     rule_b1(ctx, F)
     rule_u1(ctx, F)
+    rule_f1(ctx, F)
     return ctx.finish(
         "Determinism scan and merge-licence gates over rustc MIR of tree-sitter-generate: no iteration over RandomState-hashed containers, no clock/thread/pid/env/random source, no pointer→integer casts; "
         "states_conflict vets every entry it consumes, token_conflicts/entries_conflict say `no conflict` only after all their tests, merging only under OptLevel::MergeStates. "
